@@ -229,7 +229,10 @@ func runA(t *testing.T, sc Scenario) *core.Result {
 			} else {
 				d, _, err := c.Describe(u)
 				ferr = err
-				if step(first, ferr) && sc.Wrong == "" {
+				if sc.DescribeOnly {
+					w.Probe("empty_path_url")
+				}
+				if step(first, ferr) && sc.Wrong == "" && !sc.DescribeOnly {
 					if !step("SETUP", c.SetupAll(d.BaseURL, d.Medias)) {
 						return
 					}
@@ -316,8 +319,12 @@ func runA(t *testing.T, sc Scenario) *core.Result {
 			}
 			if sc.Wrong == "" {
 				// DESCRIBE|ANNOUNCE + one SETUP per media + PLAY|RECORD were authorised
-				if nOK < sc.Medias+2 {
-					w.Fail("c10/complete handler", "workload A: only %d requests were authorised, expected %d; log %+v", nOK, sc.Medias+2, al)
+				want := sc.Medias + 2
+				if sc.DescribeOnly {
+					want = 1
+				}
+				if nOK < want {
+					w.Fail("c10/complete handler", "workload A: only %d requests were authorised, expected %d; log %+v", nOK, want, al)
 					return
 				}
 				decisions += nOK
